@@ -260,7 +260,10 @@ def _substitution(ck, prog):
               found=unparse(first[-1].value), slot="copy", where=f.loc(first[-1]))
     fresh = [n for n in ast.walk(f.node) if isinstance(n, ast.Call) and prog.class_of_ctor(f.mod, n) == "Sequence"]
     ck.shape(len(fresh) == 1, "kappa_at_maxPhos: one derived object", f.loc())
-    ck.ob("CTOR-fresh", c, len(fresh[0].args) == 1 and not fresh[0].keywords, expected="Sequence(<substituted string>) and nothing carried over", found=unparse(fresh[0]), slot="result-object",
+    from props.common import carried_state
+    cs_ = carried_state(prog, f, fresh[0])
+    ck.shape(not any(k_ == "unknown" for k_, _ in cs_), "kappa_at_maxPhos: what Sequence(...) is handed besides the string (%s)" % [t_ for _, t_ in cs_], f.loc(fresh[0]))
+    ck.ob("CTOR-fresh", c, not [1 for k_, _ in cs_ if k_ in ("dmax", "alias")], expected="Sequence(<substituted string>) and nothing carried over (a consistently patched copy of the charge pattern excepted)", found=unparse(fresh[0]), slot="result-object",
           where=f.loc(fresh[0]))
     rets = [n for n in ast.walk(f.node) if isinstance(n, ast.Return) and n.value is not None]
     kinds = sorted(unparse(r.value) for r in rets)
